@@ -47,7 +47,16 @@ P3_TYPES = {
     'vT': "class Kind:\n\tdef code(self) -> str:\n\t\treturn 'a'\n\n\tdef show(self) -> None:\n\t\tv = self.code()\n\t\tprint(v)\n",
     'vS': 'class Kind:\n\tdef code(self) -> int:\n\t\treturn 2\n\n\tdef show(self) -> None:\n\t\tv = self.code()\n\t\tprint(v)\n',
 }
+
 INPUT_GLOBS = {'prefix3': ['proj/node.py', 'proj/visitor.py', 'proj/node_types.py']}
+# incl3: two independent importers below one root package whose imports fall under different include_dirs entries
+# (proj/ and the nested proj/ext/:ext_lib/): the #include line of each depends on the longest matching entry only
+I3_BASE = {'v0': 'def base() -> int:\n\treturn 1\n', 'vS': 'def base() -> int:\n\treturn 2\n'}
+I3_EXT = {'v0': 'def fmt() -> int:\n\treturn 3\n'}
+I3_USE_A = {'v0': 'from proj.base import base\n\ndef ua() -> int:\n\treturn base()\n', 'vS': 'from proj.base import base\n\ndef ua() -> int:\n\treturn base() + 1\n'}
+I3_USE_B = {'v0': 'from proj.ext.fmt import fmt\n\ndef ub() -> int:\n\treturn fmt()\n', 'vS': 'from proj.ext.fmt import fmt\n\ndef ub() -> int:\n\treturn fmt() + 1\n'}
+INCLUDE_DIRS = {'incl3': ['proj/', 'proj/ext/:ext_lib/']}
+INPUT_GLOBS['incl3'] = ['proj/*.py', 'proj/ext/*.py']
 
 GRAPHS = {
     'pair': {'proj/a.py': A, 'proj/b.py': B},
@@ -55,6 +64,7 @@ GRAPHS = {
     'diamond4': {'proj/a.py': A, 'proj/b.py': B, 'proj/ab.py': C2, 'proj/d.py': D},
     'chain3p': {'proj/bb.py': AP, 'proj/a.py': BP, 'proj/b.py': CP},
     'prefix3': {'proj/node.py': P3_NODE, 'proj/visitor.py': P3_VISITOR, 'proj/node_types.py': P3_TYPES},
+    'incl3': {'proj/base.py': I3_BASE, 'proj/ext/fmt.py': I3_EXT, 'proj/usea.py': I3_USE_A, 'proj/useb.py': I3_USE_B},
 }
 IMPORTS = {
     'pair': {'proj/b.py': ['proj/a.py']},
@@ -62,6 +72,7 @@ IMPORTS = {
     'diamond4': {'proj/b.py': ['proj/a.py'], 'proj/ab.py': ['proj/a.py'], 'proj/d.py': ['proj/b.py', 'proj/ab.py']},
     'chain3p': {'proj/a.py': ['proj/bb.py'], 'proj/b.py': ['proj/a.py']},
     'prefix3': {'proj/node.py': ['proj/visitor.py'], 'proj/visitor.py': ['proj/node_types.py']},
+    'incl3': {'proj/usea.py': ['proj/base.py'], 'proj/useb.py': ['proj/ext/fmt.py']},
 }
 
 
